@@ -366,12 +366,17 @@ def register(chk):
         step = 64
         for lo in range(0, bits + 1, step):
             chk.add("wnaf<%d,%d>:lemmas:i=%d..%d" % (bits, w, lo, min(lo + step, bits + 1) - 1), ob_wnaf_lemmas, bits, w, lo, min(lo + step, bits + 1))
+    import c06_loops
+    c06_loops.register(chk)
 
 
 def main(argv=None):
     chk = Check("C06", "proof", argv)
     chk.replayer = replay_wnaf
+    sys.path.insert(0, os.path.dirname(os.path.abspath(__file__)))
     prog_for()
+    import c06_loops
+    c06_loops.prog()
     register(chk)
     chk.explanation = ("WnafScalar::from_bigint is lowered to IR from the current tree; its recoding loop is cut at the header and one iteration is "
                        "executed symbolically from an arbitrary state (BigInt word operations replaced by their bit-vector specifications, proved by "
